@@ -4,6 +4,7 @@ From Coq Require Import List ZArith NArith Bool Arith.
 Import ListNotations.
 From V Require Import Model.Align Model.SnapOps Model.Unmanaged Proofs.UnmanagedProofs.
 From V Require Import Model.TreeAssign Proofs.TreeAssignProofs.
+From V Require Import Model.CallAssign Proofs.CallAssignProofs.
 
 Theorem C10_unmanaged_never_generated :
   forall (F : flags) (old : list uleaf) (new : list Z),
@@ -62,6 +63,18 @@ Theorem C10_assign_unmanaged_kept_nofix :
   forall (f : nat) (F : flags) (o : tree) (n : val), f_fix F = false -> unms_r (assign f F o n) = unms o.
 Proof. exact assign_unmanaged_kept_nofix. Qed.
 
+(* constructor calls: no code is generated for a user-controlled part of any argument, none is duplicated or reordered *)
+Theorem C10_call_unmanaged_subsequence :
+  forall (F : flags) (c : call) (fs : list field),
+  subseq (result_unms (call_result F c fs)) (call_unms c).
+Proof. exact call_unmanaged_subsequence. Qed.
+
+(* a keyword argument the user controls is kept verbatim whatever its field now holds (also the default, where a managed one would be deleted) *)
+Theorem C10_call_unmanaged_kw_kept :
+  forall (F : flags) (c : call) (fs : list field) (k : Z) (t : tree),
+  In (k, t) (c_kws c) -> is_unm t = true -> find_field k fs <> None -> In (CKw k (RKeep t)) (call_result F c fs).
+Proof. exact call_unmanaged_kw_kept. Qed.
+
 Print Assumptions C10_unmanaged_never_generated.
 Print Assumptions C10_kept_unmanaged_subsequence.
 Print Assumptions C10_unmanaged_survive_without_fix.
@@ -72,3 +85,5 @@ Print Assumptions C10_unmanaged_matching_value_kept_by_prefix.
 Print Assumptions C10_equal_all_keep_u.
 Print Assumptions C10_assign_unmanaged_subsequence.
 Print Assumptions C10_assign_unmanaged_kept_nofix.
+Print Assumptions C10_call_unmanaged_subsequence.
+Print Assumptions C10_call_unmanaged_kw_kept.
